@@ -224,6 +224,7 @@ class Executor:
         self.obligations = []    # (description, pc_terms, cond_term, location)
         self.counter = itertools.count()
         self.models = dict(MODELS)
+        self.pc_stack = []
         if models:
             self.models.update(models)
         self.inline = inline or (lambda name: True)
@@ -234,6 +235,15 @@ class Executor:
         self.max_depth = max_depth
 
     # ---- fresh symbols --------------------------------------------------------------------
+    pc_stack = ()
+
+    def abs_pc(self, pc):
+        """Path condition from the outermost function's entry (inlined callees run with a relative one)."""
+        out = []
+        for p in self.pc_stack:
+            out += p
+        return out + list(pc)
+
     def fresh_int(self, hint, bits, signed=False):
         name = "%s_%d" % (re.sub(r"\W", "_", hint), next(self.counter))
         self.decls.append((name, "Int"))
@@ -276,7 +286,7 @@ class Executor:
         while work:
             bb, env, pc = work.pop()
             steps += 1
-            if steps > 4000:
+            if steps > getattr(self, "max_steps", 4000):
                 raise MirError("path explosion in " + fname)
             stmts, term = f.blocks[bb]
             try:
@@ -428,6 +438,9 @@ class Executor:
             return self.constant(s[6:].strip())
         if re.match(r"^_\d+$", s) or s.startswith("("):
             return self.read_place(f, s, env)
+        if "::" in s and not s.startswith(("copy ", "move ")):
+            # a function item (zero-sized) passed as an argument
+            return ("opaque", "0", "fn " + s)
         raise MirError("unsupported operand: " + s)
 
     def constant(self, c):
@@ -456,6 +469,8 @@ class Executor:
         if re.match(r"^[A-Za-z_][\w:]*$", c) and c.split("::")[-1].isupper():
             # a named constant of a non-integer type (e.g. a string): an opaque identity
             return ("opaque", "0", c)
+        if re.search(r"::promoted\[\d+\]$", c):
+            return ("ref", [("opaque", "0", "promoted")])
         raise MirError("unsupported constant: " + c)
 
     const_values = {}
@@ -495,7 +510,7 @@ class Executor:
             v = self.read_place(f, m.group(1), env)
             if v[0] == "adt":
                 return mk_int(lit(v[2]), 64, True)
-            raise MirError("discriminant of non-adt")
+            raise MirError("discriminant of non-adt: %s = %r" % (s, v))
         # aggregates
         if s.startswith("(") and s.endswith(")") and not re.match(r"^\(.*\.\d+: .*\)$", s) and not s.startswith("(*"):
             inner = s[1:-1]
@@ -504,6 +519,15 @@ class Executor:
             parts = split_top(inner, ",")
             if len(parts) >= 2 or inner.rstrip().endswith(","):
                 return ("tuple", [self.operand(f, p, env) for p in parts if p.strip()])
+        m = re.match(r"^(\{closure@[^}]*\}) \{ (.*) \}$", s)
+        if m:
+            fields = {}
+            for i, p in enumerate(split_top(m.group(2), ",")):
+                n, v = p.split(":", 1)
+                fields[i] = self.operand(f, v, env)
+            return ("adt", m.group(1).strip(), 0, fields)
+        if re.match(r"^\{closure@[^}]*\}$", s):
+            return ("adt", s, 0, {})
         m = re.match(r"^([\w:<>, ]+?) \{ (.*) \}$", s)
         if m:
             fields = {}
@@ -519,6 +543,11 @@ class Executor:
             return ("adt", "Option", 1, {0: self.operand(f, m.group(1), env)})
         if re.match(r"^(?:std::option::)?Option::<.*>::None$", s):
             return ("adt", "Option", 0, {})
+        m = re.match(r"^((?:\w+(?:::<[^()]*>)?::)*[A-Z]\w*)\((.*)\)$", s)
+        if m and m.group(1) not in BINOPS:
+            # tuple-like enum variant / tuple struct constructor: the variant is kept by name
+            parts = [p for p in split_top(m.group(2), ",") if p.strip()]
+            return ("adt", m.group(1), m.group(1).split("::")[-1], {i: self.operand(f, p, env) for i, p in enumerate(parts)})
         return self.operand(f, s, env)
 
     def int_cast(self, v, bits, signed):
@@ -620,9 +649,17 @@ class Executor:
         m = re.match(r"^goto -> (bb\d+)$", t)
         if m:
             return [("go", m.group(1), env, pc)]
-        m = re.match(r"^drop\(.*\) -> \[return: (bb\d+),.*\]$", t)
+        m = re.match(r"^drop\((.*)\) -> \[return: (bb\d+),.*\]$", t)
         if m:
-            return [("go", m.group(1), env, pc)]
+            hook = getattr(self, "on_drop", None)
+            if hook is not None:
+                place = m.group(1).strip()
+                try:
+                    val = self.read_place(f, place, env)
+                except Exception:
+                    val = None
+                hook(f, place, val, pc)
+            return [("go", m.group(2), env, pc)]
         m = re.match(r"^switchInt\((.*)\) -> \[(.*)\]$", t)
         if m:
             v = self.operand(f, m.group(1), env)
@@ -677,6 +714,7 @@ class Executor:
                 self.obligations.append(("no panic: call to " + callee, list(pc), "false", f.name))
                 return []
             outs = []
+            self.current_dst_ty = f.locals.get(dst.strip()) if re.match(r"^_\d+$", dst.strip()) else None
             results = self.call(callee, args, pc, depth, f=f, argstr=argstr, env=env)
             for r in results:
                 extra_pc, val = r[0], r[1]
@@ -707,11 +745,17 @@ class Executor:
         hits = find_function(self.funcs, key) if self.inline(key) else []
         if len(hits) == 1 and depth < self.max_depth:
             self.inlined.add(hits[0])
-            res = self.run(hits[0], args, depth + 1)
+            self.pc_stack.append(list(pc))
+            try:
+                res = self.run(hits[0], args, depth + 1)
+            finally:
+                self.pc_stack.pop()
             out = []
             for (rpc, rv, _env) in res:
                 out.append((rpc, rv))
             return out
+        if getattr(self, "default_model", None) is not None:
+            return self.default_model(self, callee, args, pc, getattr(self, "current_dst_ty", None))
         # uninterpreted: fresh result, call recorded
         f = None
         ret = ("opaque", "uf_%d" % next(self.counter), callee)
